@@ -20434,6 +20434,12 @@ pub mod verif_hooks_revoke {
 		pub counterparty_current_point: Option<PublicKey>,
 		/// `context.counterparty_next_commitment_point`
 		pub counterparty_next_point: Option<PublicKey>,
+		/// `LOCAL_STFU_SENT` is set
+		pub local_stfu_sent: bool,
+		/// `REMOTE_STFU_SENT` is set
+		pub remote_stfu_sent: bool,
+		/// `QUIESCENT` is set
+		pub quiescent: bool,
 	}
 
 	impl<SP: SignerProvider> FundedChannel<SP> {
@@ -20460,6 +20466,12 @@ pub mod verif_hooks_revoke {
 				min_seen_secret: self.context.commitment_secrets.get_min_seen_secret(),
 				counterparty_current_point: self.context.counterparty_current_commitment_point,
 				counterparty_next_point: self.context.counterparty_next_commitment_point,
+				local_stfu_sent: matches!(self.context.channel_state, ChannelState::ChannelReady(_))
+					&& self.context.channel_state.is_local_stfu_sent(),
+				remote_stfu_sent: matches!(self.context.channel_state, ChannelState::ChannelReady(_))
+					&& self.context.channel_state.is_remote_stfu_sent(),
+				quiescent: matches!(self.context.channel_state, ChannelState::ChannelReady(_))
+					&& self.context.channel_state.is_quiescent(),
 			}
 		}
 	}
